@@ -22,7 +22,7 @@ package utils
 //@   trusted
 //@   note container/heap + comparator closures + recursive tree linking are outside the subset; assumed frame: only the order structure (queueNode / PriorityQueue objects, jo.queueNodes, jo.rootNodes) and the ghost flag of this job change
 //@   requires jo != nil && job != nil
-//@   modifies pushed(job), jo.queueNodes[*], jo.rootNodes, family(jo.rootNodes.queue), family(jo.rootNodes.maxQueueSize), family(jo.queueNodes[job.Queue].queue), family(jo.queueNodes[job.Queue].children), family(jo.queueNodes[job.Queue].needsReorder), family(jo.queueNodes[job.Queue].parent), family(jo.queueNodes[job.Queue].isLeaf), jo.rootNodes.queue.items[*]
+//@   modifies pushed(job), jo.queueNodes[*], jo.rootNodes, family(jo.rootNodes.queue), family(jo.rootNodes.maxQueueSize), family(jo.queueNodes[job.Queue].queue), family(jo.queueNodes[job.Queue].children), family(jo.queueNodes[job.Queue].needsReorder), family(jo.queueNodes[job.Queue].parent), family(jo.queueNodes[job.Queue].isLeaf), family(jo.rootNodes.queue.items[*])
 //@ end
 
 // C06: "Reclaim, preempt and consolidation never evict pods of non-preemptible workloads": a job is
@@ -39,9 +39,38 @@ package utils
 //@   requires jobsOrder != nil && jobsOrder.ssn != nil && jobsOrder.ssn.ClusterInfo != nil
 //@   requires forall k in jobsToOrder :: podgroup_info.allTasksOK(jobsToOrder[k]) && podgroup_info.setsOK(jobsToOrder[k])
 //@   requires forall q in jobsOrder.ssn.ClusterInfo.Queues :: jobsOrder.ssn.ClusterInfo.Queues[q] != nil
-//@   modifies family(pushed(jobsToOrder[""])), family(jobsOrder.queueNodes[*]), family(jobsOrder.rootNodes), family(jobsOrder.rootNodes.queue), family(jobsOrder.rootNodes.maxQueueSize), family(jobsOrder.queueNodes[""].queue), family(jobsOrder.queueNodes[""].children), family(jobsOrder.queueNodes[""].needsReorder), family(jobsOrder.queueNodes[""].parent), family(jobsOrder.queueNodes[""].isLeaf), jobsOrder.rootNodes.queue.items[*]
+//@   modifies family(pushed(jobsToOrder[""])), family(jobsOrder.queueNodes[*]), family(jobsOrder.rootNodes), family(jobsOrder.rootNodes.queue), family(jobsOrder.rootNodes.maxQueueSize), family(jobsOrder.queueNodes[""].queue), family(jobsOrder.queueNodes[""].children), family(jobsOrder.queueNodes[""].needsReorder), family(jobsOrder.queueNodes[""].parent), family(jobsOrder.queueNodes[""].isLeaf), family(jobsOrder.rootNodes.queue.items[*])
 //@   loop 1
 //@     invariant forall j *podgroup_info.PodGroupInfo :: pushed(j) && !old(pushed(j)) ==> old(flagsHold(jobsOrder, j)) && old(memberOf(jobsToOrder, j))
 //@   ensures [pushedOnlyFiltered] forall j *podgroup_info.PodGroupInfo :: pushed(j) && !old(pushed(j)) ==> old(flagsHold(jobsOrder, j))
 //@   ensures [pushedOnlyGiven] forall j *podgroup_info.PodGroupInfo :: pushed(j) && !old(pushed(j)) ==> old(memberOf(jobsToOrder, j))
+//@ end
+
+// ---- GetVictimsQueue -----------------------------------------------------------------------------------
+// filterHolds(f, j): victim filter f accepted job j. The filters passed by preempt and consolidation are the
+// closures under contract in those packages (their posts say what acceptance implies); here the filter is an
+// abstract parameter. Assumed frame of a filter call = the union of those two closures' frames.
+//@ declare filterHolds(f ref, j ref) bool
+//@ func param:GetVictimsQueue.filter
+//@   props C06
+//@   note assumed contract of the func-typed parameter: acceptance is recorded in the abstract predicate filterHolds; frame = the job's activeAllocatedCount cache cell pointer and int cells (the closures preempt.buildFilterFuncForPreempt$1 / consolidation.buildPreemptibleFilterFunc$1 write nothing else)
+//@   modifies arg0.activeAllocatedCount, family(*arg0.activeAllocatedCount)
+//@   ensures result ==> filterHolds(fn, arg0)
+//@ end
+
+// C06: the victims queue handed to the solver contains only session jobs that the action's filter accepted
+// (DESIGN: "contents ⊆ {job | filter(job)}"), whose queue exists and is a leaf.
+//@ func GetVictimsQueue
+//@   props C06
+//@   requires ssn != nil && ssn.ClusterInfo != nil
+//@   requires forall k in ssn.ClusterInfo.PodGroupInfos :: podgroup_info.allTasksOK(ssn.ClusterInfo.PodGroupInfos[k]) && podgroup_info.setsOK(ssn.ClusterInfo.PodGroupInfos[k])
+//@   requires forall q in ssn.ClusterInfo.Queues :: ssn.ClusterInfo.Queues[q] != nil
+//@   modifies family(ssn.ClusterInfo.PodGroupInfos[""].activeAllocatedCount), family(*ssn.ClusterInfo.PodGroupInfos[""].activeAllocatedCount), family(pushed(ssn.ClusterInfo.PodGroupInfos[""])), family(famJO().queueNodes[*]), family(famJO().rootNodes), family(famJO().rootNodes.queue), family(famJO().rootNodes.maxQueueSize), family(famJO().queueNodes[""].queue), family(famJO().queueNodes[""].children), family(famJO().queueNodes[""].needsReorder), family(famJO().queueNodes[""].parent), family(famJO().queueNodes[""].isLeaf), family(famJO().rootNodes.queue.items[*])
+//@   loop 1
+//@     invariant forall k in preemptees :: podgroup_info.allTasksOK(preemptees[k]) && podgroup_info.setsOK(preemptees[k])
+//@     invariant forall k in preemptees :: memberOf(ssn.ClusterInfo.PodGroupInfos, preemptees[k])
+//@     invariant forall k in preemptees :: filter == nil || filterHolds(filter, preemptees[k])
+//@   ensures [victimQueue] result != nil && result.options.VictimQueue
+//@   ensures [onlyAccepted] forall j *podgroup_info.PodGroupInfo :: pushed(j) && !old(pushed(j)) ==> filter == nil || filterHolds(filter, j)
+//@   ensures [onlySessionJobs] forall j *podgroup_info.PodGroupInfo :: pushed(j) && !old(pushed(j)) ==> memberOf(ssn.ClusterInfo.PodGroupInfos, j)
 //@ end
